@@ -20,6 +20,32 @@ CHECKS = {
         "domain excludes contractions that cancel to <2% of their absolute self-overlap.",
         "DESIGN.md 6/C01",
     ),
+    "C02": (
+        "property-based differential testing: generated bases per enumerated (l_a,l_b) cell vs independent closed-form "
+        "second-derivative integrals",
+        "Generated-input search against an independent reference for all 36 l-pairs; element-wise bound "
+        "1e-8*sqrt(T_aa T_bb) with oracle diagonals, symmetry and raw shell blocks. Sampling, not proof.",
+        "Trusts vf/ref R1/R3/R4 (selftest: quadrature, mpmath, HORTON kinetic matrix).",
+        "DESIGN.md 6/C02",
+    ),
+    "C07": (
+        "property-based differential + metamorphic testing: generated bases/origins/order lists vs closed-form "
+        "three-factor integrals; origin-shift law on the library's own lower moments",
+        "Generated-input search: 25 l-pairs enumerated, order lists drawn from (0..4)^3 with repetition and arbitrary "
+        "sequence (all 125 triples swept in a second sub-check), origins on/off/far; compared with an independent "
+        "oracle at 1e-8 of the Cauchy-Schwarz scale, plus (0,0,0)=overlap and the binomial origin-shift law.",
+        "Trusts vf/ref R1/R3/R4; shift law judged at the rounding scale each lower library moment is entitled to.",
+        "DESIGN.md 6/C07",
+    ),
+    "C08": (
+        "property-based differential testing: generated bases vs independent integrals for every ordered pair; "
+        "Hermiticity and exhaustive shell-reordering law per case",
+        "Generated-input search: 25 l-pairs enumerated; upper, lower and diagonal shell blocks all compared with "
+        "independently computed <a|-i grad|b>, <a|-i r x grad|b>; Hermiticity, zero real part, both block "
+        "orientations, every ordering of the shells, optional transformation.",
+        "Trusts vf/ref R1/R3/R4. Found and repaired D1 (fix commit 3c1ecf0).",
+        "DESIGN.md 6/C08",
+    ),
 }
 
 NOT_YET = "check not built yet in this revision (planned, see DESIGN.md section 6)"
